@@ -87,3 +87,52 @@ Section Regions.
       rewrite (@items_cons R _ V _ v vs), padd_assoc. reflexivity.
   Qed.
 End Regions.
+
+(** * without pre-sizing: logarithmically many reallocations per backing vector
+    std's amortised growth ("at least doubles") as a second hypothesis on the abstract policy.  A backing
+    vector that is asked to hold [needs] = the successive lengths (any sequence of positive
+    requests) reallocates at most log2(final capacity) + 1 times -- never once per item. *)
+Section LogGrowth.
+  Variable grow : N -> N -> N.
+  Hypothesis grow_ok : forall cap need, need <= grow cap need.
+  Hypothesis grow_doubles : forall cap need, 2 * cap <= grow cap need.
+
+  (** final capacity and number of reallocations *)
+  Fixpoint reallocs (cap : N) (needs : list N) : N * nat :=
+    match needs with
+    | [] => (cap, 0%nat)
+    | n :: ns => if n <=? cap then reallocs cap ns
+                 else let r := reallocs (grow cap n) ns in (fst r, S (snd r))
+    end.
+
+  Lemma reallocs_spec : forall needs cap, Forall (fun n => 1 <= n) needs ->
+    let r := reallocs cap needs in
+    cap <= fst r /\ (1 <= cap -> 2 ^ N.of_nat (snd r) * cap <= fst r) /\
+    ((1 <= snd r)%nat -> 2 ^ N.of_nat (snd r - 1) <= fst r).
+  Proof.
+    induction needs as [|n ns IH]; intros cap HF; cbn [reallocs].
+    - cbn [fst snd]. split; [lia|]. split; [intros _; change (N.of_nat 0) with 0; rewrite N.pow_0_r; lia|intros Hk; lia].
+    - inversion HF as [|? ? Hn HF']; subst.
+      destruct (N.leb_spec n cap) as [Hle|Hgt]; [apply IH; assumption|].
+      specialize (IH (grow cap n) HF'). cbv zeta in IH. destruct IH as (H1 & H2 & H3).
+      pose proof (grow_ok cap n) as G1. pose proof (grow_doubles cap n) as G2.
+      set (r := reallocs (grow cap n) ns) in *. cbn [fst snd].
+      assert (Hc1 : 1 <= grow cap n) by lia. specialize (H2 Hc1).
+      split; [lia|]. split.
+      + intros Hcap. rewrite Nat2N.inj_succ, N.pow_succ_r'. nia.
+      + intros _. replace (S (snd r) - 1)%nat with (snd r) by lia.
+        assert (0 < 2 ^ N.of_nat (snd r)) by (apply N.neq_0_lt_0, N.pow_nonzero; lia). nia.
+  Qed.
+
+  Theorem log_reallocs needs cap : Forall (fun n => 1 <= n) needs ->
+    (snd (reallocs cap needs) <= N.to_nat (N.log2 (fst (reallocs cap needs))) + 1)%nat.
+  Proof.
+    intros HF. destruct (reallocs_spec cap HF) as (_ & _ & H3).
+    destruct (snd (reallocs cap needs)) as [|k] eqn:E; [lia|].
+    specialize (H3 ltac:(lia)). replace (S k - 1)%nat with k in H3 by lia.
+    assert (Hk : N.of_nat k <= N.log2 (fst (reallocs cap needs))).
+    { apply N.log2_le_pow2; [|exact H3].
+      assert (0 < 2 ^ N.of_nat k) by (apply N.neq_0_lt_0, N.pow_nonzero; lia). lia. }
+    lia.
+  Qed.
+End LogGrowth.
